@@ -189,7 +189,20 @@ _u = st.floats(1e-6, 1 - 1e-6)
 def pixel(draw, nmax, paths=("gammastd", "yxt", "grp", "accessor")):
     n = draw(st.one_of(st.integers(3, 12), st.integers(3, nmax)))
     dtype = draw(st.sampled_from(["float64", "int16", "float32"]))
-    kind = draw(st.sampled_from(["gamma", "gamma", "gamma", "two_values", "few_values"]))
+    kind = draw(st.sampled_from(["gamma", "gamma", "gamma", "two_values", "few_values", "zeros90"]))
+    if kind == "zeros90":
+        # exactly 90 % zeros among the valid cells: the property still promises the fit ("at most 90 % zeros")
+        n = draw(st.sampled_from([20, 30, 40]))
+        x = np.zeros(n)
+        pos = draw(st.lists(st.integers(0, n - 1), min_size=n // 10, max_size=n // 10, unique=True))
+        vals = draw(st.lists(st.integers(1, 3000), min_size=n // 10, max_size=n // 10, unique=True))
+        for q, v in zip(pos, vals):
+            x[q] = float(v)
+        case = {"x": x.tolist(), "ok": [True] * n, "dtype": dtype, "nodata": draw(st.sampled_from([-9999, -32768])), "kind": "zeros90",
+                "zeros": n - n // 10, "path": draw(st.sampled_from(paths))}
+        if case["path"] == "yxt":
+            case["twin_pixel"] = draw(st.booleans())
+        return case
     if kind == "gamma":
         shape = 10 ** draw(st.floats(math.log10(0.05), math.log10(500)))
         scale = 10 ** draw(st.floats(-1, 4))
